@@ -6,7 +6,8 @@ package main
 //   - flagSet: flag.XxxVar(&opts.F, "name", <default>, usage) registrations (is <default> opts.F itself?)
 //     and the order of its statements as a stage list
 //   - GetOptions: its first two statements (NewOptions, flagSet)
-//   - getEnv / loadCfg: the literal pieces the model depends on ("VFLOW_%s", "-", "_", "-config", strings.ToUpper)
+//   - getEnv / loadCfg: the literal pieces the model depends on ("VFLOW_%s", "-", "_", strings.ToUpper; the loop over os.Args that
+//     recognises -config / --config / -config= / --config=, verbatim)
 //
 // Fail closed: whatever is not recognised becomes `.unrecognised "<go text>"` / `.other "<type>"`,
 // which no theorem of Props/C17 accepts.
@@ -234,7 +235,12 @@ func genOptionsTbl(repo string) (genFile, error) {
 			txt := goText(fset, fd.Body)
 			for _, piece := range []string{
 				`path.Join(opts.VFlowConfigPath, "vflow.conf")`,
-				`for i, flag := range os.Args { if flag == "-config" { file = os.Args[i+1]`,
+				// the whole scan of os.Args, verbatim: the four spellings of the config flag (Model: cfgWord), the
+				// value in the next word or after the "=", the first match decides (Model: findConfig)
+				`for i, arg := range os.Args { if arg == "-config" || arg == "--config" { file = os.Args[i+1] } ` +
+					`else if strings.HasPrefix(arg, "-config=") || strings.HasPrefix(arg, "--config=") ` +
+					`{ file = arg[strings.Index(arg, "=")+1:] } else { continue } ` +
+					`opts.VFlowConfigPath, _ = path.Split(file) break }`,
 				`ioutil.ReadFile(file)`,
 				`yaml.Unmarshal(b, opts)`,
 			} {
